@@ -451,11 +451,11 @@ func keyCollRunes() gcKey[[]rune] {
 		}, false, nil, nil, nil}
 }
 
-var c18Schema = kinds.Schema{Fields: []kinds.FieldType{kinds.FU16, kinds.FI32}, Str: true}
+var c18Schema = kinds.Schema{Fields: []kinds.FieldType{kinds.FU8, kinds.FI32}, Str: true}
 
 func keyTuple() gcKey[kinds.Tuple] {
 	k := kinds.CompoundKind(c18Schema, true)
-	return gcKey[kinds.Tuple]{"compound(uint16,int32,string)", func(i int) kinds.Tuple {
+	return gcKey[kinds.Tuple]{"compound(uint8,int32,string)", func(i int) kinds.Tuple {
 		return kinds.Tuple{N: [4]uint64{uint64(i % 5), uint64(int64(i*37 - 900))}, S: heapString("t", uint64(i))}
 	}, k.ID, noScribble[kinds.Tuple], true, func(a, b kinds.Tuple) bool { return k.Cmp(a, b) < 0 }, nil, nil}
 }
@@ -493,7 +493,7 @@ func c18Combos[V any](us *[]engine.Unit, gv gcVal[V], seed uint64, nOps int, mod
 	})
 	add("compound", func(res *ev.Result, unit string) {
 		gcRun(res, unit, func() art.Tree[kinds.Tuple, V] {
-			return art.NewCompoundTree[kinds.Tuple, V](kinds.TupleCodec{Schema: c18Schema, Lib: true})
+			return art.NewCompoundTree[kinds.Tuple, V](kinds.TupleCodec{Schema: c18Schema, Lib: true, InPlace: true})
 		}, keyTuple(), gv, seed, nOps)
 	})
 }
